@@ -4,6 +4,7 @@ import (
 	"fmt"
 
 	"github.com/shaardie/clemens/pkg/metadata"
+	"github.com/shaardie/clemens/pkg/move"
 	"github.com/shaardie/clemens/pkg/uci"
 )
 
@@ -61,5 +62,7 @@ func init() {
 		defBytes("md_name", metadata.Name)
 		defBytes("md_version", metadata.Version)
 		defBytes("md_author", metadata.Author)
+		sb.WriteString("(* pkg/move: capacity of MoveList (the 256th Append would be an index panic; the model's lists are unbounded) *)\n")
+		fmt.Fprintf(&sb, "Definition ml_moveListSize : N := %d%%N.\n", move.VerifMoveListSize())
 	})
 }
